@@ -115,4 +115,28 @@ theorem real_hueValue_turns (h : ℝ) : ∃ j : ℤ, hueValue h = h + 360 * j :=
     push_cast
     rw [this]; ring
 
+/-- **`lch()` angles are reduced modulo a turn** (exact arithmetic, any integer number of turns):
+the colour built from hue `h + 360·k` is the colour built from hue `h`. -/
+theorem fromLch_whole_turns (l c h al : ℝ) (k : ℤ) : fromLch l c (h + 360 * k) al = fromLch l c h al := by
+  have key : ∀ x : ℝ, ∃ n : ℤ, Sc.fmod x (360.0 : ℝ) * deg2rad = x * (Real.pi / 180) - n * (2 * Real.pi) := by
+    intro x
+    refine ⟨rtrunc (x / 360), ?_⟩
+    show (x - (360.0 : ℝ) * ((rtrunc (x / (360.0 : ℝ)) : ℤ) : ℝ)) * deg2rad = _
+    unfold deg2rad
+    sc_norm
+    norm_num
+    ring
+  obtain ⟨n1, h1⟩ := key (h + 360 * k)
+  obtain ⟨n2, h2⟩ := key h
+  have hc : Real.cos (Sc.fmod (h + 360 * k) (360.0 : ℝ) * deg2rad) = Real.cos (Sc.fmod h (360.0 : ℝ) * deg2rad) := by
+    rw [h1, h2, Real.cos_sub_int_mul_two_pi, Real.cos_sub_int_mul_two_pi]
+    have : (h + 360 * k) * (Real.pi / 180) = h * (Real.pi / 180) + k * (2 * Real.pi) := by ring
+    rw [this, Real.cos_add_int_mul_two_pi]
+  have hs : Real.sin (Sc.fmod (h + 360 * k) (360.0 : ℝ) * deg2rad) = Real.sin (Sc.fmod h (360.0 : ℝ) * deg2rad) := by
+    rw [h1, h2, Real.sin_sub_int_mul_two_pi, Real.sin_sub_int_mul_two_pi]
+    have : (h + 360 * k) * (Real.pi / 180) = h * (Real.pi / 180) + k * (2 * Real.pi) := by ring
+    rw [this, Real.sin_add_int_mul_two_pi]
+  unfold fromLch
+  simp only [real_cos, real_sin, hc, hs]
+
 end Pastel
